@@ -32,8 +32,9 @@ MANIFEST = dict(
          "C02_set_hidden_own_step: the index written as a step of its own, P/[0], on the single value at any plain position P, "
          "a list element included; C02_set_hidden_elem: q0[i][0] on a single value that is element i of a list; "
          "C02_set_hidden_middle: name[0]/k2/p2 with name a dict and k2/p2 an existing node below it - each is exactly setAt, "
-         "unbounded; C02_set_hidden_middle_own (P/[0]/k2/p2) and C02_set_hidden_middle_elem (q0[i][0]/k2/p2) likewise; several "
-         "hidden indexes in a row are instances + "
+         "unbounded; C02_set_hidden_middle_own (P/[0]/k2/p2) and C02_set_hidden_middle_elem (q0[i][0]/k2/p2) likewise; C02_set_hidden_row: "
+         "any number of hidden indexes in a row, P[0][-1][last()], is setAt at P (the re-resolve loop of __setitem__ by "
+         "induction); several hidden indexes at different places of one path are instances + "
          "differential); the histories and the evaluator hidden_list write through these spellings, also on nodes in the "
          "middle of the path.",
     note="values written are fresh objects (the harness deep-copies); aliasing one object at two positions is outside the model.",
